@@ -22,6 +22,15 @@ ENVS = {
     # the restricted mode with a list that grants what the generated preflights ask for
     'listed': _env(ALLOW_ALL='false', ALLOW_ORIGINS=','.join(CFG_ORIGINS), ALLOW_CREDENTIALS='true', ALLOW_HEADERS=','.join(CFG_HEADERS),
                    ALLOW_METHODS=','.join(CFG_METHODS), EXPOSE_HEADERS='Content-Length', MAX_AGE='5'),
+    # the restricted mode with the same lists, and each of the settings that is NOT a list left empty / unset / unreadable: the grants are due all the same
+    'listed-cred-empty': _env(ALLOW_ALL='false', ALLOW_ORIGINS=','.join(CFG_ORIGINS), ALLOW_CREDENTIALS='', ALLOW_HEADERS=','.join(CFG_HEADERS),
+                   ALLOW_METHODS=','.join(CFG_METHODS), EXPOSE_HEADERS='Content-Length', MAX_AGE='5'),
+    'listed-cred-unset': _env(ALLOW_ALL='false', ALLOW_ORIGINS=','.join(CFG_ORIGINS), ALLOW_CREDENTIALS=None, ALLOW_HEADERS=','.join(CFG_HEADERS),
+                   ALLOW_METHODS=','.join(CFG_METHODS), EXPOSE_HEADERS='Content-Length', MAX_AGE='5'),
+    'listed-cred-odd': _env(ALLOW_ALL='false', ALLOW_ORIGINS=','.join(CFG_ORIGINS), ALLOW_CREDENTIALS='TRUE', ALLOW_HEADERS=','.join(CFG_HEADERS),
+                   ALLOW_METHODS=','.join(CFG_METHODS), EXPOSE_HEADERS='', MAX_AGE=''),
+    'listed-bare': _env(ALLOW_ALL='false', ALLOW_ORIGINS=','.join(CFG_ORIGINS), ALLOW_CREDENTIALS='false', ALLOW_HEADERS=','.join(CFG_HEADERS),
+                   ALLOW_METHODS=','.join(CFG_METHODS), EXPOSE_HEADERS=None, MAX_AGE=None),
     # the restricted mode, nobody listed (no grant is due; HEAD still has to follow GET)
     'closed': _env(ALLOW_ALL='false', ALLOW_ORIGINS='http://other.example', ALLOW_CREDENTIALS='false', ALLOW_HEADERS='', ALLOW_METHODS='', EXPOSE_HEADERS='', MAX_AGE=''),
     # the switch is not a boolean / is not set at all: the code falls back to allow-all
